@@ -7,8 +7,8 @@ RULE = ("prefixes of well-formed images (typed images, random images with tables
         "all 4 configurations x {eager, lazy} x {string stream, file}: every prefix length for small images (thorough) or lengths "
         "sampled densely around every table/section boundary plus a uniform sample (quick). The full image's observations come from "
         "this generator's independent decoder. Non-trivial = the truncated load succeeded with at least one section.")
-ASSUMPTIONS = ["'every header field' is read as the ELF header's fields; section/program header fields of a table entry that is only "
-               "partly inside the prefix are reported as read (zero-filled)", "well-formed full image"]
+ASSUMPTIONS = ["'absent/empty' for a section or program header field means 0 (what an entry that is not in the file reads as), "
+               "for a name the empty string", "well-formed full image"]
 KEEP_PREFIX = 3
 
 
@@ -65,6 +65,28 @@ def oracle(case, impl):
             continue
         if hdr[k] != eh[k]:
             fails.append("header: field %d reported %d, complete file has %d" % (k, hdr[k], eh[k]))
+    # section and program header fields: each one absent/empty (0; empty name) or identical to the complete file's -
+    # in particular a field must not hold the part of its bytes that happened to lie before the cut
+    SF = ("type", "flags", "addr", "offset", "size", "link", "info", "addralign", "entsize", "name")
+    for i, (vals, nm) in secs.items():
+        if i >= len(im.sections):
+            if any(vals) or nm:
+                fails.append("section-header: section %d does not exist in the complete file but reports %s" % (i, vals))
+            continue
+        fs = im.sections[i]
+        for k, f in enumerate(SF):
+            if vals[k] != 0 and vals[k] != fs[f]:
+                fails.append("section-header: section %d field %s reported %d, complete file has %d (cut at %d)" % (i, f, vals[k], fs[f], cut))
+        if nm and nm != fs["sname"]:
+            fails.append("section-header: section %d name %r, complete file has %r" % (i, nm, fs["sname"]))
+    GF = ("type", "flags", "offset", "vaddr", "paddr", "filesz", "memsz", "align")
+    for j, vals in segs.items():
+        if j >= len(im.segments):
+            continue
+        fg = im.segments[j]
+        for k, f in enumerate(GF):
+            if vals[k] != 0 and vals[k] != fg[f]:
+                fails.append("program-header: segment %d field %s reported %d, complete file has %d (cut at %d)" % (j, f, vals[k], fg[f], cut))
     # section data: absent/empty or identical to the complete file's; never bytes that are not in the file
     for i, (size, d) in sdata.items():
         if d is None or len(d) == 0:
